@@ -235,7 +235,17 @@ func TestC05(t *testing.T) {
 	c.Assume("two-way = both an encoder and a decoder that the library's own dispatchers reach; match fields that DecodeMatchField does not map are outside (avoided by the generator, counted)",
 		"generator preconditions of DESIGN.md Appendix B")
 	regressC05(t, c)
-	rapid.Check(t, func(rt *rapid.T) {
+	rapid.Check(t, c05Prop(c))
+}
+
+// FuzzC05: coverage-guided driver of the same property (thorough tier only).
+func FuzzC05(f *testing.F) {
+	c := ev.For("C05")
+	f.Fuzz(rapid.MakeFuzz(c05Prop(c)))
+}
+
+func c05Prop(c *ev.Collector) func(rt *rapid.T) {
+	return func(rt *rapid.T) {
 		c.Eval()
 		switch gen.Pick(rt, "what", 7) {
 		case 0, 1:
@@ -247,7 +257,7 @@ func TestC05(t *testing.T) {
 		default:
 			c05Element(c, rt)
 		}
-	})
+	}
 }
 
 func avoidOneWay(g *gen.G) {
